@@ -124,7 +124,10 @@ def run_spec(tape, spec, extra_threads=None, executes=1, style=0):
     # output plumbing outside the properties and is skipped
     from openhtf.core import test_executor as _te
     saved_combine = _te.combine_profile_stats
-    _te.combine_profile_stats = lambda stats, filename: None
+    def _combine_without_files(stats, filename):
+      for st_ in stats:
+        st_.stats   # (what pstats would read: a None among the statistics fails as in the real function)
+    _te.combine_profile_stats = _combine_without_files
     xkw['profile_filename'] = os.devnull
     obs.faults['profiling_enabled'] = 1
   wout = {}
